@@ -402,3 +402,9 @@ func ASCII(s string) bool {
 // WSDialClosed reports whether the agent-side end of the i-th dialled websocket
 // was closed (engine only).
 func WSDialClosed(i int) bool { return false }
+
+// M-ws upgrade recorder (engine only).
+func WSUpgrades() int                 { return 0 }
+func WSUpgradePeer(i int) interface{} { return nil }
+func WSUpgradeClosed(i int) bool      { return false }
+func WSUpgradeFail(fail bool)         {}
